@@ -363,6 +363,22 @@ fn shared_rule(rng: &mut Rng, id: String, lang: &'static str, f: &str) -> RuleSp
   RuleSpec { id, lang, doc, feats: vec!["constraints-shared-var"], shared: true, hits, misses }
 }
 
+/// a fix that erases the whole match: for a test case that consists of the match alone the fixed
+/// text is the empty document (a snapshot must say `fixed: ''`, and say it again when it is read)
+fn erase_rule(rng: &mut Rng, id: String, lang: &'static str, f: &str) -> RuleSpec {
+  let doc = obj(vec![
+    ("id", json!(id)),
+    ("language", json!(lang)),
+    ("severity", json!(severity(rng))),
+    ("rule", json!({"kind": "expression_statement", "has": {"pattern": format!("{f}_gone($$$A)")}})),
+    ("message", json!(format!("{f}_gone is gone"))),
+    ("fix", json!("")),
+  ]);
+  let hits = vec![format!("{f}_gone();"), format!("{f}_gone(1, 2);"), format!("{f}_gone(alpha)")];
+  let misses = vec![format!("{f}_here();"), format!("let z = {f}_gone(1);")];
+  RuleSpec { id, lang, doc, feats: vec!["fix", "erasing-fix"], shared: false, hits, misses }
+}
+
 fn gen_project(idx: usize, rng: &mut Rng) -> (Project, Layout) {
   let nrules = 3 + rng.below(8);
   let with_shared = rng.chance(1, 4);
@@ -386,6 +402,11 @@ fn gen_project(idx: usize, rng: &mut Rng) -> (Project, Layout) {
   if rng.chance(1, 2) {
     let f = fnames[nrules % fnames.len()];
     rules.push(py_chain_rule(rng, format!("r{nrules}-{f}-py"), f));
+  }
+  if rng.chance(1, 2) {
+    let f = fnames[(nrules + 1) % fnames.len()];
+    let lang = if rng.chance(1, 2) { "JavaScript" } else { "TypeScript" };
+    rules.push(erase_rule(rng, format!("r{}-{f}-erase", nrules + 1), lang, f));
   }
   let nrules = rules.len();
   shuffle(rng, &mut rules);
@@ -802,8 +823,22 @@ pub fn process(ctx: &Ctx, rng: &mut Rng, o: &mut Out) {
 
     // 4. snapshots: test -U, test, 3 more fresh copies, and the permuted-keys copy
     let (mut cs, l0) = (Cmp::default(), sg.launches);
+    // every third project has a snapshot file left behind by a test case that no longer exists:
+    // it belongs to no test directory, `test -U` leaves it alone and writes the others
+    let stale = idx % 3 == 0;
+    if stale {
+      let dir = d0.path().join("tests/__snapshots__");
+      let _ = std::fs::create_dir_all(&dir);
+      let _ = std::fs::write(dir.join("gone-rule-snapshot.yml"), "id: gone-rule\nsnapshots:\n  gone(1):\n    labels:\n    - source: gone(1)\n      style: primary\n      start: 0\n      end: 7\n");
+    }
     let u0 = sg.run(d0.path(), &["test", "-U"]);
-    let snap0 = snapshots(d0.path());
+    let mut snap0 = snapshots(d0.path());
+    if stale {
+      match snap0.remove("gone-rule-snapshot.yml") {
+        Some(b) if b.starts_with(b"id: gone-rule") => {}
+        other => o.oracle("c13-snapshot-order", false, json!({"fp": "c13 a snapshot without test case was touched by test -U", "project": idx, "present": other.is_some()})),
+      }
+    }
     let (entries, bad) = unsorted_snapshots(&snap0);
     snap_entries += entries;
     if !bad.is_empty() {
@@ -836,7 +871,11 @@ pub fn process(ctx: &Ctx, rng: &mut Rng, o: &mut Out) {
       cs.note("test-after-update", failed.first().map(|s| s.as_str()), format!("`test` after `test -U` exits {} (test -U exited {}); failed rules {:?}", t0.code, u0.code, failed));
       cs.ids.extend(failed);
     }
-    cmp_snaps(&mut cs, "test-rewrites-snapshot", "after `test`", &snap0, &snapshots(d0.path()));
+    let mut after_test = snapshots(d0.path());
+    if stale {
+      after_test.remove("gone-rule-snapshot.yml");
+    }
+    cmp_snaps(&mut cs, "test-rewrites-snapshot", "after `test`", &snap0, &after_test);
     let mut copies: Vec<(String, Layout)> = (1..=3).map(|k| (format!("fresh copy {k}"), base.clone())).collect();
     copies.push(("permuted-keys copy".into(), keys.clone()));
     for (lbl, l) in &copies {
